@@ -47,6 +47,7 @@ def encodeCharset (names : List Int) : Outcome Bytes :=
   | [] => .panic "index out of range"
   | n0 :: tl =>
     if n0 ≠ 0 then .err "other"
+    else if tl.any (fun x => x < 0 ∨ x > 0xFFFF) then .err "other"   -- "invalid charset entry"
     else
       let runs := groupRuns tl
       let length0 := 1 + 2 * tl.length
